@@ -126,6 +126,10 @@ class Gen:
     def gen_record(self, reported, line, st, depth):
         rng, ctx = self.rng, self.ctx
         t, c, fields = zfgen.rand_rdata(rng, ctx.origin is not None, self.hard)
+        while any(k == "ports" for k, _ in fields):
+            # the textual WKS form is left to C23/C24 (its bit order is C23's known finding C23-1 and
+            # must not decide anything here); WKS in the \# form still occurs
+            t, c, fields = zfgen.rand_rdata(rng, ctx.origin is not None, self.hard)
         fields = [(k, self.name()) if k == "name" and rng.random() < 0.5 else (k, v) for k, v in fields]
         omit_p = 0.6 if self.after_include else 0.3
         if ctx.owner is not None and rng.random() < omit_p:
